@@ -811,9 +811,11 @@ class Compiler:
                 self._emit(OpCode.CATCH)
                 # Store exception in catch variable
                 name = node.handler.param.name
-                self._add_local(name)
-                slot = self._get_local(name)
-                self._emit(OpCode.STORE_LOCAL, slot)
+                if self._in_function:
+                    self._add_local(name)
+                # (wherever that variable lives: a cell when inner functions capture the
+                # name, a global at program level, where functions see nothing else)
+                self._emit_store_variable(name)
                 self._emit(OpCode.POP)
                 if node.finalizer:
                     # Guard the catch clause: if it throws, finally still runs
